@@ -8,6 +8,8 @@ cannot handle does not hide the others:
    rcomm  services with every attribute, single ECU jobs, every parameter kind, comparam-less refs, sub components
    rhard  elements whose writer macros are fragile (dyn-defined spec, end-marker field, layer company data, IMPORT-REFS)
    rvars  rhard plus DIAG-VARIABLES (the writer cannot write them at all on the pinned commit)
+Families of small multi-document databases: `seq_variants` (write sequences) and `xdoc_*` (one six-layer hierarchy with
+communication parameters, distributed over diagnostic layer containers in every possible way; load orders, derived state).
 """
 
 XSI = 'xmlns:xsi="http://www.w3.org/2001/XMLSchema-instance"'
@@ -622,3 +624,179 @@ def load_docs(xmls, aux=None):
         db._process_xml_tree(ElementTree.fromstring(x))
     db.refresh()
     return db
+
+
+# -------------------------------------------------------------------------------------------------
+# cross-document hierarchy family ("xdoc"): ONE hierarchy of six layers (library, protocol, two functional groups, base variant,
+# ECU variant) in which every layer defines an object of every kind that is inherited (services, global negative responses,
+# DOPs, tables, functional classes, additional audiences, state charts, unit groups, communication parameters), objects that
+# override an inherited object of the same name / the same communication parameter, NOT-INHERITED-* entries, and SNREFs to
+# inherited objects.  The layers are distributed over diagnostic layer containers (= documents) in every possible way
+# (`xdoc_partitions`: the 52 set partitions of the five layers), so that each parent/child pair is once inside one document
+# and once across two, and the documents are then loaded in every order.
+XDOC_LAYERS = ["xlib", "xprot", "xfg", "xbv", "xev"]        # the layers that are distributed (one digit of a partition code each)
+XDOC_TWIN = {"xfg": "xfg2"}                                  # a second functional group that always lives in the container of the first:
+                                                             #   two parents of the same inheritance priority (stable order, shared ancestors)
+XDOC_ALL = ["xlib", "xprot", "xfg", "xfg2", "xbv", "xev"]
+XDOC_KIND = {"xlib": "sd", "xprot": "pr", "xfg": "fg", "xfg2": "fg", "xbv": "bv", "xev": "ev"}
+XDOC_TAG = {"sd": "ECU-SHARED-DATA", "pr": "PROTOCOL", "fg": "FUNCTIONAL-GROUP", "bv": "BASE-VARIANT", "ev": "ECU-VARIANT"}
+XDOC_PARENTS = {"xlib": [], "xprot": ["xlib"], "xfg": ["xprot", "xlib"], "xfg2": ["xlib", "xprot"], "xbv": ["xfg", "xfg2", "xprot", "xlib"],
+                "xev": ["xbv", "xlib"]}
+XDOC_OVERRIDES = {"xlib", "xprot", "xbv"}          # layers that define the `*_over` objects (the others inherit one of them)
+XDOC_SID = {"xlib": 0x11, "xprot": 0x12, "xfg": 0x13, "xbv": 0x14, "xev": 0x15, "xfg2": 0x16}
+XDOC_NOT_INHERITED = {      # (child, parent) -> {kind: [short names]}
+    ("xbv", "xfg"): {"DIAG-COMM": ["S_xfg"], "GLOBAL-NEG-RESPONSE": ["gnr_xfg"]},
+    ("xbv", "xfg2"): {"DOP": ["d_xfg2"], "TABLE": ["t_xfg2"]},
+    ("xev", "xbv"): {"DIAG-COMM": ["S_xprot"], "DOP": ["d_xprot"], "TABLE": ["t_xfg"], "GLOBAL-NEG-RESPONSE": ["gnr_xprot"]},
+    ("xfg", "xlib"): {"DOP": ["d_xlib"]},
+}
+XDOC_COMPARAMS = {          # layer -> [(comparam, value | [complex values], protocol snref?)]
+    "xprot": [("CP_Baudrate", "500000", True), ("CP_UniqueRespIdTable", ["normal", "1792", "1800"], True),
+              ("CP_TesterPresentTime", "2000000", False), ("CP_CanFuncReqId", "2015", False)],
+    "xfg": [("CP_Baudrate", "250000", True), ("CP_P2Max", "50000", False)],
+    "xfg2": [("CP_P2Max", "60000", False), ("CP_Baudrate", "300000", True)],
+    "xbv": [("CP_UniqueRespIdTable", ["extended", "1793", "1801"], True), ("CP_TesterPresentTime", "3000000", True), ("CP_Bv", "7", False)],
+    "xev": [("CP_CanFuncReqId", "2016", False), ("CP_Baudrate", "125000", False), ("CP_CANFDTxMaxDataLength", "CANFD TX_DL = 64", True)],
+}
+
+
+def xdoc_partitions():
+    """every assignment of the five layers to containers as a restricted growth string ('00000' = one container,
+    '01234' = one container per layer); 52 of them"""
+    out = []
+
+    def rec(prefix, used):
+        if len(prefix) == len(XDOC_LAYERS):
+            out.append("".join(map(str, prefix)))
+            return
+        for b in range(used + 1):
+            rec(prefix + [b], max(used, b + 1))
+    rec([0], 1)
+    return out
+
+
+def _xdoc_bits(n):
+    return '<DIAG-CODED-TYPE BASE-DATA-TYPE="A_UINT32" xsi:type="STANDARD-LENGTH-TYPE"><BIT-LENGTH>%d</BIT-LENGTH></DIAG-CODED-TYPE>' % n
+
+
+def _xdoc_snparam(name, dopname, pos):
+    return (f'<PARAM xsi:type="VALUE"><SHORT-NAME>{name}</SHORT-NAME><BYTE-POSITION>{pos}</BYTE-POSITION>'
+            f'<DOP-SNREF SHORT-NAME="{dopname}"/></PARAM>')
+
+
+def xdoc_layer(n, container_of):
+    """the XML of layer n; container_of: layer -> short name of the container it lives in"""
+    kind = XDOC_KIND[n]
+    sid = XDOC_SID[n]
+    over = n in XDOC_OVERRIDES
+    k = XDOC_ALL.index(n)
+    names = [n] + (["over"] if over else [])         # suffixes of the objects of each kind this layer defines
+
+    def oid(x, s):
+        return f"{n}.{x}.{s}"
+    fcs = "".join(f'<FUNCT-CLASS ID="{oid("FC", s)}"><SHORT-NAME>fc_{s}</SHORT-NAME><LONG-NAME>fc {s} of {n}</LONG-NAME></FUNCT-CLASS>' for s in names)
+    dops = "".join(dop(oid("D", s), dct=_xdoc_bits(8 * (k + 1) if s == "over" else 8)).replace(f"<SHORT-NAME>{oid('D', s)}<", f"<SHORT-NAME>d_{s}<")
+                   for s in names)
+    tables = "".join(f'<TABLE ID="{oid("T", s)}"><SHORT-NAME>t_{s}</SHORT-NAME><LONG-NAME>table {s} of {n}</LONG-NAME><KEY-DOP-REF ID-REF="{oid("D", n)}"/>'
+                     f'<TABLE-ROW ID="{oid("TR", s)}"><SHORT-NAME>row</SHORT-NAME><KEY>{k + 1}</KEY><DATA-OBJECT-PROP-SNREF SHORT-NAME="d_over"/></TABLE-ROW>'
+                     f'</TABLE>' for s in names)
+    units = ('<UNIT-SPEC><UNIT-GROUPS>'
+             + "".join(f'<UNIT-GROUP><SHORT-NAME>ug_{s}</SHORT-NAME><LONG-NAME>unit group {s} of {n}</LONG-NAME><CATEGORY>COUNTRY</CATEGORY>'
+                       f'<UNIT-REFS><UNIT-REF ID-REF="{oid("U", n)}"/></UNIT-REFS></UNIT-GROUP>' for s in names)
+             + f'</UNIT-GROUPS><UNITS><UNIT ID="{oid("U", n)}"><SHORT-NAME>u_{n}</SHORT-NAME><DISPLAY-NAME>u{k}</DISPLAY-NAME></UNIT></UNITS></UNIT-SPEC>')
+    ddds = f'<DIAG-DATA-DICTIONARY-SPEC><DATA-OBJECT-PROPS>{dops}</DATA-OBJECT-PROPS><TABLES>{tables}</TABLES>{units}</DIAG-DATA-DICTIONARY-SPEC>'
+    svcs = "".join(service(oid("S", s), oid("RQ", s), pos=[oid("PR", s)]).replace(f"<SHORT-NAME>{oid('S', s)}<", f"<SHORT-NAME>S_{s}<")
+                   for s in names)
+    # requests: service id, (for the overriding services a second constant byte that tells the definitions apart), a parameter
+    # whose DOP is found by short name among the objects the layer ends up with (inherited or overridden ones included)
+    rqs = "".join(request(oid("RQ", s), sid_param(sid if s == n else 0x50)
+                          + (sid_param(k + 1, name="who", sem="ID").replace("<BYTE-POSITION>0", "<BYTE-POSITION>1") if s == "over" else "")
+                          + _xdoc_snparam("p", "d_over", 2) + value_param("q", oid("D", n), 2 + k + 1)) for s in names)
+    prs = "".join(response("POS-RESPONSE", oid("PR", s), sid_param((sid if s == n else 0x50) + 0x40) + _xdoc_snparam("r", "d_over", 1)) for s in names)
+    gnrs = "".join(response("GLOBAL-NEG-RESPONSE", oid("GNR", s), sid_param(0x7f) + sid_param(sid if s == n else 0x50, name="rqsid", sem="SERVICEIDRQ")
+                            .replace("<BYTE-POSITION>0", "<BYTE-POSITION>1") + value_param("code", oid("D", n), 2))
+                   .replace(f"<SHORT-NAME>{oid('GNR', s)}<", f"<SHORT-NAME>gnr_{s}<") for s in names)
+    scs = "".join(f'<STATE-CHART ID="{oid("SC", s)}"><SHORT-NAME>sc_{s}</SHORT-NAME><LONG-NAME>chart {s} of {n}</LONG-NAME><SEMANTIC>SESSION</SEMANTIC>'
+                  f'<STATE-TRANSITIONS><STATE-TRANSITION ID="{oid("STT", s)}"><SHORT-NAME>go</SHORT-NAME><SOURCE-SNREF SHORT-NAME="a"/>'
+                  f'<TARGET-SNREF SHORT-NAME="b"/></STATE-TRANSITION></STATE-TRANSITIONS><START-STATE-SNREF SHORT-NAME="a"/>'
+                  f'<STATES><STATE ID="{oid("ST", s)}.a"><SHORT-NAME>a</SHORT-NAME></STATE><STATE ID="{oid("ST", s)}.b"><SHORT-NAME>b</SHORT-NAME></STATE></STATES>'
+                  f'</STATE-CHART>' for s in names)
+    auds = "".join(f'<ADDITIONAL-AUDIENCE ID="{oid("AA", s)}"><SHORT-NAME>aud_{s}</SHORT-NAME><LONG-NAME>audience {s} of {n}</LONG-NAME></ADDITIONAL-AUDIENCE>'
+                   for s in names)
+    cps = ""
+    for cp, val, snref in XDOC_COMPARAMS.get(n, []):
+        v = (f"<SIMPLE-VALUE>{val}</SIMPLE-VALUE>" if isinstance(val, str)
+             else "<COMPLEX-VALUE>" + "".join(f"<SIMPLE-VALUE>{x}</SIMPLE-VALUE>" for x in val) + "</COMPLEX-VALUE>")
+        cps += (f'<COMPARAM-REF ID-REF="xcs.{cp}" DOCREF="xcs" DOCTYPE="COMPARAM-SUBSET">{v}'
+                + ('<PROTOCOL-SNREF SHORT-NAME="xprot"/>' if snref else "") + '</COMPARAM-REF>')
+    prefs = ""
+    for p in XDOC_PARENTS[n]:
+        ni = "".join(f'<NOT-INHERITED-{kd}S>' + "".join(
+            f'<NOT-INHERITED-{kd}><{ {"DIAG-COMM": "DIAG-COMM", "DOP": "DOP-BASE", "TABLE": "TABLE", "GLOBAL-NEG-RESPONSE": "GLOBAL-NEG-RESPONSE"}[kd]}-SNREF '
+            f'SHORT-NAME="{x}"/></NOT-INHERITED-{kd}>' for x in xs) + f'</NOT-INHERITED-{kd}S>'
+            for kd, xs in XDOC_NOT_INHERITED.get((n, p), {}).items())
+        prefs += (f'<PARENT-REF ID-REF="{p}" DOCREF="{container_of[p]}" DOCTYPE="CONTAINER" xsi:type="{XDOC_TAG[XDOC_KIND[p]]}-REF">{ni}</PARENT-REF>')
+    body = (ident(n) + f'<FUNCT-CLASSS>{fcs}</FUNCT-CLASSS>' + ddds + f'<DIAG-COMMS>{svcs}</DIAG-COMMS><REQUESTS>{rqs}</REQUESTS>'
+            f'<POS-RESPONSES>{prs}</POS-RESPONSES><GLOBAL-NEG-RESPONSES>{gnrs}</GLOBAL-NEG-RESPONSES>'
+            f'<STATE-CHARTS>{scs}</STATE-CHARTS><ADDITIONAL-AUDIENCES>{auds}</ADDITIONAL-AUDIENCES>')
+    if kind != "sd":
+        body += f'<COMPARAM-REFS>{cps}</COMPARAM-REFS>' if cps else ""
+    if kind == "pr":
+        body += '<COMPARAM-SPEC-REF ID-REF="xspec" DOCREF="xspec" DOCTYPE="COMPARAM-SPEC"/><PROT-STACK-SNREF SHORT-NAME="xstack"/>'
+    if prefs:
+        body += f'<PARENT-REFS>{prefs}</PARENT-REFS>'
+    return kind, f'<{XDOC_TAG[kind]} ID="{n}">{body}</{XDOC_TAG[kind]}>'
+
+
+def xdoc_comparam_docs():
+    """{member name: document}: the communication parameter subset and the communication parameter specification"""
+    def cp(name, default):
+        return (f'<COMPARAM ID="xcs.{name}" PARAM-CLASS="COM" CPTYPE="STANDARD" CPUSAGE="ECU-COMM" DISPLAY-LEVEL="1"><SHORT-NAME>{name}</SHORT-NAME>'
+                f'<PHYSICAL-DEFAULT-VALUE>{default}</PHYSICAL-DEFAULT-VALUE><DATA-OBJECT-PROP-REF ID-REF="xcs.u32"/></COMPARAM>')
+    simple = "".join(cp(n, d) for n, d in [("CP_Baudrate", "1000000"), ("CP_TesterPresentTime", "1000000"), ("CP_CanFuncReqId", "2015"),
+                                           ("CP_P2Max", "1"), ("CP_Bv", "0"), ("CP_CANFDTxMaxDataLength", "TX_DL = 8")])
+    cplx = ('<COMPLEX-COMPARAM ID="xcs.CP_UniqueRespIdTable" PARAM-CLASS="UNIQUE_ID" CPTYPE="STANDARD" CPUSAGE="ECU-COMM" ALLOW-MULTIPLE-VALUES="true">'
+            '<SHORT-NAME>CP_UniqueRespIdTable</SHORT-NAME>' + cp("CP_CanPhysReqFormat", "normal") + cp("CP_CanPhysReqId", "2016") + cp("CP_CanRespUSDTId", "2024")
+            + '</COMPLEX-COMPARAM>')
+    subset = (f'<?xml version="1.0" encoding="UTF-8"?>\n<ODX MODEL-VERSION="2.2.0" {XSI}>\n<COMPARAM-SUBSET ID="xcs" CATEGORY="TRANS">'
+              f'<SHORT-NAME>xcs</SHORT-NAME><LONG-NAME>subset</LONG-NAME><COMPARAMS>{simple}</COMPARAMS><COMPLEX-COMPARAMS>{cplx}</COMPLEX-COMPARAMS>'
+              '<DATA-OBJECT-PROPS>' + dop("xcs.u32", dct=_xdoc_bits(32)) + '</DATA-OBJECT-PROPS></COMPARAM-SUBSET>\n</ODX>\n')
+    spec = (f'<?xml version="1.0" encoding="UTF-8"?>\n<ODX MODEL-VERSION="2.2.0" {XSI}>\n<COMPARAM-SPEC ID="xspec"><SHORT-NAME>xspec</SHORT-NAME>'
+            '<LONG-NAME>spec</LONG-NAME><PROT-STACKS><PROT-STACK ID="xspec.xstack"><SHORT-NAME>xstack</SHORT-NAME><PDU-PROTOCOL-TYPE>ISO_15765_3</PDU-PROTOCOL-TYPE>'
+            '<PHYSICAL-LINK-TYPE>ISO_11898_2_DWCAN</PHYSICAL-LINK-TYPE><COMPARAM-SUBSET-REFS><COMPARAM-SUBSET-REF ID-REF="xcs" DOCREF="xcs" '
+            'DOCTYPE="COMPARAM-SUBSET"/></COMPARAM-SUBSET-REFS></PROT-STACK></PROT-STACKS></COMPARAM-SPEC>\n</ODX>\n')
+    return {"xcs.odx-cs": subset, "xspec.odx-c": spec}
+
+
+def xdoc_members(code):
+    """{member name: document} of the hierarchy distributed according to `code` (see xdoc_partitions); container j is
+    named so that the alphabetical order of the members is not the parent-first order for every partition"""
+    blocks = sorted(set(code))
+    cname = {b: ("k%s%s" % ("zyxwv"[i] if len(code.replace(b, "")) % 2 else "abcde"[i], b)) for i, b in enumerate(blocks)}
+    container_of = {n: cname[code[i]] for i, n in enumerate(XDOC_LAYERS)}
+    container_of.update({t: container_of[n] for n, t in XDOC_TWIN.items()})
+    out = {}
+    for b in blocks:
+        layers = [xdoc_layer(m, container_of) for i, n in enumerate(XDOC_LAYERS) if code[i] == b for m in [n] + ([XDOC_TWIN[n]] if n in XDOC_TWIN else [])]
+        body = ""
+        for kd, tag in (("sd", "ECU-SHARED-DATAS"), ("pr", "PROTOCOLS"), ("fg", "FUNCTIONAL-GROUPS"), ("bv", "BASE-VARIANTS"), ("ev", "ECU-VARIANTS")):
+            xs = "".join(x for k2, x in layers if k2 == kd)
+            if xs:
+                body += f"<{tag}>{xs}</{tag}>"
+        out[cname[b] + ".odx-d"] = doc(cname[b], body)
+    out.update(xdoc_comparam_docs())
+    return out
+
+
+def xdoc_parent_first(code, reverse=False):
+    """the member names of partition `code` with the container of the library first ... the container of the ECU variant
+    last (first occurrence), comparam documents in front; reverse=True: exactly the opposite order"""
+    m = xdoc_members(code)
+    names = [n for n in m if n.endswith(".odx-d")]
+    first = {}
+    for i, b in enumerate(code):
+        first.setdefault(b, i)
+    blocks = sorted(set(code))
+    names = sorted(names, key=lambda nm: first[nm[2:-len(".odx-d")]])
+    order = ["xcs.odx-cs", "xspec.odx-c"] + names
+    return order[::-1] if reverse else order
